@@ -95,6 +95,7 @@ struct GenResult {
     int32_t data_accesses;
     uint64_t state_digest;  // digest of the emitted TestCase (to count distinct vectors)
     char assert_expr[96];
+    int32_t gen_expand_kind; // the generator's own view of the form: 0 no second word, 1 any second word, 2 a data address as second word
 };
 
 // The API every glue library exports
